@@ -21,6 +21,7 @@ text are the logged edits:
   R8  struct fields made `pub` (visibility only)
   R11 `for` loop desugared into `loop { match it.next() .. }` (Rust reference), enumerate counter explicit
   R9  locspan `Meta::map(f)` inlined (`Meta(f(self.0), self.1)`) and beta-reduced
+  R14 implicit drop of a named local at the end of a fn body made explicit (tail bound, `x.drop()`)
 
 Anything else that cannot be handled raises ExtractError (driver exit 2); the
 extractor never edits code to make it fit.
@@ -1011,6 +1012,34 @@ def rule_R11(ed, src, parts, ordinal, name, ghost=None, plain=False):
     ed.insert(toks[close].start, tail + "} None => break, } ", "R11", "for-loop desugared")
 
 
+def rule_R14(ed, src, parts, local, hint="", before=""):
+    """R14: the implicit drop of the named local at the end of the fn body is made explicit, as Rust's
+    drop elaboration does: the tail expression is bound to a fresh local, the local's `drop` (verified
+    as an inherent method, R10) is called, the bound value is returned.  The local must be declared by
+    a `let` directly in the fn body and the body must end in a tail expression."""
+    toks = src.toks
+    bo, bc = parts["body"]
+    sts = stmts_in_block(src, bo + 1, bc)
+    if not sts:
+        raise ExtractError("R14: empty body")
+    s0, e, tail = sts[-1]
+    if not tail:
+        raise ExtractError("R14: the fn body does not end in a tail expression")
+    declared = False
+    for (a, b, _t) in sts[:-1]:
+        seq = [t.text for t in toks[a:b + 1] if t.kind not in ("ws", "comment")]
+        if seq[:1] == ["let"] and local in seq[1:4]:
+            declared = True
+    if not declared:
+        raise ExtractError("lost anchor: R14: no `let %s` directly in the fn body" % local)
+    ed.insert(toks[s0].start, "let verif_r = ", "R14", "tail expression bound (implicit drop of `%s` made explicit)" % local)
+    # end of the tail expression: last significant token before the closing brace
+    j = bc - 1
+    while toks[j].kind in ("ws", "comment"):
+        j -= 1
+    ed.insert(toks[j].end, ";\n%s\t\t%s.drop();\n%s\t\tverif_r" % ((before.rstrip() + "\n") if before.strip() else "", local, (hint.rstrip() + "\n") if hint.strip() else ""), "R14", "implicit drop of `%s` made explicit" % local)
+
+
 def rule_R7(ed, src, parts, ordinal, params, text):
     """closure #ordinal in the fn: replace `|p|` by `|params|`, wrap a
     non-block body in braces, insert contract text between"""
@@ -1520,6 +1549,8 @@ class Unit:
                     rule_R4(ed, src, parts, inv, body, after)
                 elif r == "R5":
                     rule_R5(ed, src, parts, int(args[1]) if len(args) > 1 else 1)
+                elif r == "R14":
+                    rule_R14(ed, src, parts, args[1], "\n".join("\n".join(t) for (n2, _a2, t) in blk.subs if n2 == "r14after"), "\n".join("\n".join(t) for (n2, _a2, t) in blk.subs if n2 == "r14before"))
                 elif r == "R11":
                     rule_R11(ed, src, parts, int(args[1]), args[2] if len(args) > 2 else "verif_it%s" % args[1], args[3] if len(args) > 3 and args[3] != "-" else None, plain=(len(args) > 4 and args[4] == "plain"))
                 elif r == "R9":
@@ -1544,7 +1575,7 @@ class Unit:
                 if not m:
                     raise ExtractError("%s: bad //@closure argument" % label)
                 rule_R7(ed, src, parts, int(m.group(1)), m.group(2), text)
-            elif name in ("subst", "nospinoff", "r4inv", "r4body", "r4after", "optional", "modelled"):
+            elif name in ("subst", "nospinoff", "r4inv", "r4body", "r4after", "r14after", "r14before", "optional", "modelled"):
                 pass
             elif name == "pubfields":
                 rule_R8(ed, src, a, b)
